@@ -62,6 +62,8 @@ def ref_g_dg(spec, x):
 def expand(mode, val, sizes):
     """reference expansion of a bound / move specification to one value per design variable"""
     n = int(np.sum(sizes))
+    if mode == 'default':   # argument omitted: documented defaults xmin=0, xmax=1, move=0.1
+        return np.full(n, float(val))
     if mode == 'scalar':
         return np.full(n, float(val))
     if mode == 'signal':
@@ -128,7 +130,7 @@ def run(spec, second_maxit=None, prior=0):
     given_copy = [np.array(v, copy=True) for v in given]
     for _ in range(prior):
         with contextlib.redirect_stdout(io.StringIO()):
-            pym.minimize_mma(net, sv, sr, **dict(spec['opts'], maxit=3, verbosity=0, **{k: _arg(spec, k) for k in ('xmin', 'xmax', 'move')}))
+            pym.minimize_mma(net, sv, sr, **dict(spec['opts'], maxit=3, verbosity=0, **{k: _arg(spec, k) for k in ('xmin', 'xmax', 'move') if spec[k][0] != 'default'}))
     del log[:]
     init_states = [np.array(s.state, copy=True) for s in sv]
     tr = dict(calls=[], cb=[], log=log, printed='', error=None)
@@ -146,7 +148,7 @@ def run(spec, second_maxit=None, prior=0):
     def callback():
         tr['cb'].append(dict(states=[np.array(s.state, dtype=float, copy=True) for s in sv], ndims=[np.ndim(s.state) for s in sv], nlog=len(log), ncalls=len(tr['calls'])))
 
-    bounds_in = {k: _arg(spec, k) for k in ('xmin', 'xmax', 'move')}
+    bounds_in = {k: _arg(spec, k) for k in ('xmin', 'xmax', 'move') if spec[k][0] != 'default'}
     bounds_copy = {k: (np.array(v, copy=True) if hasattr(v, '__len__') else v) for k, v in bounds_in.items()}
     _mma_mod.subsolv = wrapped
     buf = io.StringIO()
@@ -154,10 +156,13 @@ def run(spec, second_maxit=None, prior=0):
         with contextlib.redirect_stdout(buf):
             kw = {k: (np.array(v, dtype=float) if k in ('a', 'c') else v) for k, v in spec['opts'].items()}
             kw = dict(kw, verbosity=spec.get('verbosity', 0), fn_callback=callback, **bounds_in)
+            form = spec.get('varform', 'list')   # how the caller passes variables / responses
+            va = sv[0] if form == 'single' else (tuple(sv) if form == 'tuple' else sv)
+            ra = tuple(sr) if form == 'tuple' else sr
             if second_maxit is None:
-                pym.minimize_mma(net, sv, sr, **kw)
+                pym.minimize_mma(net, va, ra, **kw)
             else:
-                opt = _mma_mod.MMA(net, sv, sr, **kw)
+                opt = _mma_mod.MMA(net, va, ra, **kw)
                 opt.response()
                 tr['first'] = (len(tr['cb']), opt.iter)
                 opt.maxIt = second_maxit
